@@ -720,6 +720,7 @@ func isIdentChar(c byte) bool {
 
 const helperSrc = `
 func old[T any](x T) T { panic("spec") }
+func iter[T any](x T) T { panic("spec") }
 func __forall(f any) bool { panic("spec") }
 func __exists(f any) bool { panic("spec") }
 func __imp(a, b bool) bool { panic("spec") }
